@@ -127,7 +127,7 @@ for _d in range(30):
     for reg in (0, 1, 2):
         polar = reg != 1
         if polar:
-            tiers = Q if _d <= 2 else (T if _d <= 8 else ())
+            tiers = Q if _d <= 1 else (T if _d <= 8 else ())   # depth 2 polar harnesses take 9-11 min: thorough
         else:
             tiers = Q if _d in (0, 1, 2, 29) else T
         if tiers:
@@ -275,7 +275,7 @@ def _bmoc_family(pid, mode):
         L.append(_bmoc_h(pid, mode, op, na, nb, dma, dmb, tiers, timeout=to, mem_gb=mem))
     # or / xor end with pack(): the pack lemma (cut) is part of the claim
     L.append(_pack_h(pid, 4, 1, Q, timeout=1800))
-    L.append(_pack_d_h(pid, 4, 2, 1, Q))
+    L.append(_pack_d_h(pid, 4, 2, 1, T))   # 8-9 min: quick tier of C15 only
     L.append(_pack_h(pid, 4, 2, T, timeout=3600, mem_gb=16))
     return L
 
@@ -677,7 +677,7 @@ for (ds, lv, tiers) in ((0, 1, Q), (1, 1, Q), (0, 2, T), (3, 2, T)):
                   inputs=None, replay=None, covers=['a fully covered cell', 'a partially covered cell at the target depth'],
                   domain='real cone_coverage_approx_recur from one symbolic root cell of depth %d down %d level(s): arbitrary thresholds min<=max per level, '
                          'arbitrary distance per visited cell, symbolic probe cell' % (ds, lv)))
-_c06.append(_pack_d_h('C06', 4, 2, 1, Q))
+_c06.append(_pack_d_h('C06', 4, 2, 1, T))
 _c06[-1]['mod'] = 'verif_c06b'
 _c06[-1]['stubs'] = [(a, b.replace('verif_c06::', 'verif_c06b::')) for a, b in _c06[-1]['stubs']]
 _c06[-1]['unwindset'] = dict((k.replace('verif_c06::', 'verif_c06b::'), v) for k, v in _c06[-1]['unwindset'].items())
@@ -713,19 +713,19 @@ for ns in (1, 2, 3, 4, 5, 6, 7, 8, 13, 100, 1000003, (1 << 29) - 1, 1 << 29):
         # nside 1, 2: one harness per latitude band (quick); other nside: additionally split by base-cell column (thorough)
         for quad in ((255,) if ns <= 2 else (0, 1, 2, 3)):
             _c11.append(H('c11_point_%s_n%d%s' % (bn, ns, '' if quad == 255 else '_q%d' % quad), 'k_c11_point(%d, %s, %d, %d);' % (ns, _C11_ROLE, band, quad),
-                          tiers=(Q if (ns == 1 or (ns == 2 and band != 1)) else T), timeout=(2400 if ns <= 2 and band != 1 else 3600), mem_gb=8, unwind=3, stubs=_PLANE_CUT('verif_c11'),
+                          tiers=(Q if (ns == 1 and band != 1) else T), timeout=(1200 if (ns == 1 and band != 1) else 2400), mem_gb=8, unwind=3, stubs=_PLANE_CUT('verif_c11'),
                           inputs=[('x', 'f64'), ('y', 'f64')], replay='c11_pullback', replay_const={'nside': ns},
                           covers=['last base cell column', 'first base cell column'] if quad == 255 else ['east part of the column', 'west part of the column'],
                           domain='nside %d: every double point of the HEALPix image with y in the %s band%s, polar base-cell borders included' % (
                               ns, bn, '' if quad == 255 else ' and x in [%d, %d%s' % (2 * quad, 2 * quad + 2, ']' if quad == 3 else ')'))))
     if small or ns == 100:
-        _c11.append(H('c11_center_n%d' % ns, 'k_c11_center(%d);' % ns, tiers=tq, timeout=2400, mem_gb=8, unwind=3, stubs=_PLANE_CUT('verif_c11'),
+        _c11.append(H('c11_center_n%d' % ns, 'k_c11_center(%d);' % ns, tiers=(Q if ns in (1, 2, 3) else T), timeout=2400, mem_gb=8, unwind=3, stubs=_PLANE_CUT('verif_c11'),
                       inputs=[('h', 'u64')], replay='c11_center', replay_const={'nside': ns}, covers=['last cell'],
                       domain='nside %d: every cell number' % ns))
-    _c11.append(H('c11_order_n%d' % ns, 'k_c11_order(%d);' % ns, tiers=((Q if ns in (1, 2, 3) else T) if small else T), timeout=2400, mem_gb=8, unwind=3,
+    _c11.append(H('c11_order_n%d' % ns, 'k_c11_order(%d);' % ns, tiers=((Q if ns == 1 else T) if small else T), timeout=2400, mem_gb=8, unwind=3,
                   inputs=[('r', 'u64')], replay='c11_order', replay_const={'nside': ns}, covers=['last pair'],
                   domain='nside %d: every pair of consecutive cell numbers' % ns))
-_c11.append(H('c11_seam_n2', 'k_c11_point(2, 1, 255, 255);', tiers=Q, timeout=2400, mem_gb=8, unwind=3, stubs=_PLANE_CUT('verif_c11'),
+_c11.append(H('c11_seam_n2', 'k_c11_point(2, 1, 255, 255);', tiers=T, timeout=2400, mem_gb=8, unwind=3, stubs=_PLANE_CUT('verif_c11'),
               inputs=[('x', 'f64'), ('y', 'f64')], replay='c11_pullback', replay_const={'nside': 2}, covers=[],
               domain='nside 2, image points on / within 2^-40 of a polar base-cell border or cap-base corner (the role of the repaired finding F4) alone'))
 for w in (0, 1, 2, 3):
@@ -737,8 +737,8 @@ PROPS['C11'] = dict(
     harnesses=_c11, libm=True,
     functions=['ring::hash', 'ring::hash_with_dxdy', 'ring::hash_with_dldh', 'ring::deal_with_1x1_box', 'ring::dldh_to_dxdy', 'ring::center_of_projected_cell',
                'ring::polar_cap_ring_index', 'ring::sph_coo', 'ring::center', 'ring::vertices', 'ring::check_hash', 'ring::triangular_number_x4'],
-    bounds={'quick': 'every image point (range, offsets, containment; polar base-cell borders included and also alone) at nside 1 and, for the polar bands, nside 2; every cell (centre round trip, sph_coo) at nside 1, 2, 3, 5; every consecutive pair (order) at nside 1, 2, 3; guards at nside 3',
-            'thorough': 'adds the equatorial band at nside 2, image points at nside 3, 5 split by base-cell column, centres / order at nside 4, 5, 7, 8, 13, order at 2^29-1, 2^29 (other nside: tier extended; harnesses that exceed a cap are reported UNDECIDED)'},
+    bounds={'quick': 'every image point of the polar bands (range, offsets, containment; polar base-cell borders included) at nside 1; every cell (centre round trip, sph_coo) at nside 1, 2, 3; every consecutive pair (order) at nside 1; guards at nside 3 (each harness < 8 min: the quick command is stopped after 15 min)',
+            'thorough': 'adds the equatorial band at nside 1, all bands at nside 2 (and the polar base-cell borders alone), image points at nside 3, 5 split by base-cell column, centres / order at nside 2, 3, 4, 5, 7, 8, 13, order at 2^29-1, 2^29 (other nside: tier extended; harnesses that exceed a cap are reported UNDECIDED)'},
     outside='other nside values; the composition with the real proj / unproj (the plane cut): decided separately in C17 (image, reference formulae) and evaluated by the native oracle on replay',
     assumptions=_LIBM_ASSUME + ['plane cut: proj returns an arbitrary point of the HEALPix image (guarantee I of C17, slack 2^-50), unproj is the identity on the plane with its domain assertion kept'],
 )
@@ -762,7 +762,7 @@ for _d in range(30):
                       inputs=[('h', 'u64'), ('dxk', 'u32'), ('dyk', 'u32')], replay='c03_cell', replay_const={'depth': _d},
                       covers=['cell at the north pole', 'west half of base cell 4 (negative x before wrapping)'] if _d > 0 else ['cell at the north pole'],
                       domain='depth %d: every cell%s (plane cut): %s' % (_d, ', offsets k/1024 with k symbolic in 1..=1023' if part == 1 else '', pn)))
-    _c03.append(H('c03_path_d%d' % _d, 'k_c03_path(%d);' % _d, tiers=Q if _d == 0 else T if _d in (2, 29) else X, timeout=2400, mem_gb=10, unwind=3, unwindset=_c03_us(_d),
+    _c03.append(H('c03_path_d%d' % _d, 'k_c03_path(%d);' % _d, tiers=T if _d in (0, 2, 29) else X, timeout=2400, mem_gb=10, unwind=3, unwindset=_c03_us(_d),
                   stubs=_C03_INTERIOR(), inputs=[('h', 'u64'), ('t', 'usize'), ('cw', 'bool'), ('sk', 'u8')], replay='c03_cell',
                   replay_const={'depth': _d, 'dxk': 512, 'dyk': 512}, covers=['last grid point', 'first path point, clockwise'],
                   domain='depth %d: every cell, every point of the 12-point edge path (both directions, 4 starting vertices) and of the 3x3 grid' % _d))
@@ -771,7 +771,7 @@ for _d in range(30):
             for b in ((0, 1, 2, 3, 255) if band == 0 else (8, 9, 10, 11, 255) if band == 2 else range(12)):
                 bname = 'other' if b == 255 else 'b%d' % b
                 _c03.append(H('c03_%s_%s_%s_d%d' % (pn, bn, bname, _d), 'k_c03_image(%d, %d, %d, %d);' % (_d, band, b, part),
-                              tiers=((Q if (_d == 1 and band != 1) else T if _d in (0, 1, 2) else X) if part == 1 else (T if _d == 0 else X)), timeout=(2400 if part == 1 else 3600), mem_gb=8, unwind=3,
+                              tiers=(((Q if (_d == 0 and b in (0, 8)) else T) if _d in (0, 1, 2) else X) if part == 1 else (T if _d == 0 else X)),   # 5-14 min per class: one north and one south class at depth 0 in quick timeout=(2400 if part == 1 else 3600), mem_gb=8, unwind=3,
                               unwindset=_c03_us(_d), stubs=_PLANE_CUT_N('verif_c03'), inputs=[('x', 'f64'), ('y', 'f64')], replay='c03_pullback', replay_const={'depth': _d},
                               covers=(['a point of the band is mapped to the base cell'] if (b != 255 and part == 0) else []),
                               domain='depth %d: every double point of the HEALPix image (x in [0, 8]) with y in the %s band that hash_with_dxdy maps %s, %s' % (
@@ -779,7 +779,7 @@ for _d in range(30):
                                   'offsets in [0, 1): sph_coo gives the point back' if part == 0 else 'an offset equal to 1 or below 0: the cell contains the point (plane oracle)')))
 for _d in range(30):
     for band, bn in ((0, 'npc'), (1, 'eqr'), (2, 'spc')):
-        _c03.append(H('c03_range_%s_d%d' % (bn, _d), 'k_c03_range(%d, %d);' % (_d, band), tiers=Q if (_d == 29 or (_d in (0, 1) and band != 2)) else T, timeout=2400, mem_gb=6, unwind=3,
+        _c03.append(H('c03_range_%s_d%d' % (bn, _d), 'k_c03_range(%d, %d);' % (_d, band), tiers=Q if (_d in (0, 29) and band != 2) else T, timeout=2400, mem_gb=6, unwind=3,   # south band: 13-17 min
                       unwindset=_c03_us(_d), stubs=_PLANE_CUT_N('verif_c03'), inputs=[('x', 'f64'), ('y', 'f64')], replay='c03_pullback', replay_const={'depth': _d},
                       covers=['x = 4 (seam or base cell corner line)', 'x = 8'],
                       domain='depth %d: every double point of the HEALPix image (x in [0, 8]) with y in the %s band: cell number in range, offsets in [0, 1]' % (_d, bn)))
@@ -793,12 +793,12 @@ PROPS['C03'] = dict(
     functions=['Layer::center_of_projected_cell', 'Layer::center', 'Layer::sph_coo', 'Layer::vertex', 'Layer::vertices', 'Layer::vertices_map',
                'Layer::path_along_cell_side', 'Layer::path_along_cell_edge', 'Layer::grid', 'Layer::hash_with_dxdy', 'Layer::shift_rotate_scale',
                'discretize', 'Layer::depth0_bits', 'Layer::build_hash', 'Layer::check_hash'],
-    bounds={'quick': 'cell centres (plane oracle, hash back with offsets 0.5) and vertices (three accessors) at depths 0, 1, 2; paths and grid at depth 0 (3 segments per side, 3x3 grid); '
-                     'every image point: cell number in range and offsets in [0, 1] up to rounding (north / equatorial bands at depths 0, 1, 29; south band at depth 29); image points of the polar bands '
-                     'with an offset equal to 1 or below 0 (polar base-cell borders, poles, rounding) at depth 1: the cell contains the point (per base cell of the result); guards at depth 2',
-            'thorough': 'adds centres / vertices at depths 3, 8, 17, 29; the interior-offset round trip at depths 0, 1; paths at depths 2, 29; the border-case containment for every band / base cell at depths 0, 1; '
-                        'the sph_coo inverse for generic offsets at depth 0 (3 of the 20 band x base-cell classes; 25+ min each, often undecided); the range clause at depths 2, 8, 16, 28 and the south band at depths 0, 1'},
-    outside='quick tier: "sph_coo inverts hash_with_dxdy" for generic offsets and the interior-offset round trip (real-arithmetic reasoning on the scaled coordinates: thorough tier, and the native oracle on replay); the composition with the real proj / unproj within ulps of a cell border and the 1e-13 rad figure near the poles (they depend on the actual libm values; C17 bounds the pair '
+    bounds={'quick': 'cell centres (plane oracle, hash back with offsets 0.5) and vertices (three accessors) at depths 0, 1, 2; every image point of the north and equatorial bands: cell number in range and '
+                     'offsets in [0, 1] up to rounding, at depths 0 and 29; image points with an offset equal to 1 or below 0 (polar base-cell borders, poles, rounding) mapped into base cells 0 and 8 at depth 0: the cell contains the point; guards at depth 2 (each harness < 6 min: the quick command is stopped after 15 min)',
+            'thorough': 'adds centres / vertices at depths 3, 8, 17, 29; paths and grid at depths 0, 2, 29; the range clause for the south band and at depths 1, 2, 8, 16, 28; image points with an offset equal to 1 or below 0 '
+                        '(polar base-cell borders, poles, rounding): the cell contains the point, per band x base cell of the result at depths 0, 1; the interior-offset round trip at depths 0, 1 and the sph_coo inverse for '
+                        'generic offsets at depth 0 (3 classes) -- 25+ min each, often undecided'},
+    outside='quick tier: containment of border positions and paths (thorough); "sph_coo inverts hash_with_dxdy" for generic offsets and the interior-offset round trip (real-arithmetic reasoning on the scaled coordinates: thorough tier, and the native oracle on replay); the composition with the real proj / unproj within ulps of a cell border and the 1e-13 rad figure near the poles (they depend on the actual libm values; C17 bounds the pair '
             'separately); the clause "the cell given by hash" (hash_v2 vs hash_with_dxdy) is evaluated by the native oracle on replay only; other path segment counts',
     assumptions=_LIBM_ASSUME + ['plane cut: proj returns an arbitrary point of the HEALPix image (guarantee I of C17, slack 2^-50), unproj is the identity on the plane with its domain assertion kept',
                                 'Layer::d0h_lh_in_d0c (called by hash_with_dxdy on / next to the polar base-cell borders) returns any base cell and in-base-cell coordinates placing the same plane point within 2^-46 (lemmas R and P of C01)'],
@@ -810,7 +810,7 @@ for _d in range(30):
     for reg in (0, 1):
         for bits in (4, 8):
             # 17 x 17 lattice: quick at depths 0, 1, 2, 29; 257 x 257 lattice: thorough (20-40 min per harness)
-            tq = (Q if (_d in (0, 1, 2) or (_d == 29 and reg == 1)) else T) if bits == 4 else T   # any_d29: 40+ min, thorough
+            tq = (Q if _d in (0, 1) else T) if bits == 4 else T   # depth 2: 11 min, corner_d29: 14 min, any_d29: 40+ min -> thorough
             _c19.append(H('c19_%s_d%d%s' % ('any' if reg == 0 else 'corner', _d, '' if bits == 4 else '_fine'), 'k_c19_cell(%d, %d, %d);' % (_d, reg, bits), tiers=tq,
                           timeout=(2400 if _d < 17 else 4800) if bits == 4 else 3600, mem_gb=10,
                           unwind=4, unwindset={'verif_common::*': max(6, _d + 1), 'nested::verif_c19::*': 10, 'compass_point::*': 10},
@@ -823,7 +823,7 @@ PROPS['C19'] = dict(
     inject=[dict(host='src/nested/mod.rs', mod='verif_c19', parts=['props/c19.rs', 'kani/c19.rs'])],
     harnesses=_c19,
     functions=['Layer::bilinear_interpolation', 'Layer::neighbours', 'MainWindMap::get'],
-    bounds={'quick': 'depths 0, 1, 2: every cell x the 17 x 17 lattice of offsets k/16 (incl. 0, 0.5, 1); separately restricted to the cells lacking a cardinal neighbour (also at depth 29)', 'thorough': 'adds depth 3 (every cell), the cells lacking a cardinal neighbour at depths 3, 8, 17, and depths 0, 1 on the 257 x 257 lattice (every cell at depths 8, 17, 29 was undecided after 40 min: tier extended with the other depths)'},
+    bounds={'quick': 'depths 0, 1: every cell x the 17 x 17 lattice of offsets k/16 (incl. 0, 0.5, 1); separately restricted to the cells lacking a cardinal neighbour', 'thorough': 'adds depths 2, 3 (every cell), the cells lacking a cardinal neighbour at depths 2, 3, 8, 17, 29, and depths 0, 1 on the 257 x 257 lattice (every cell at depths 8, 17, 29 was undecided after 40 min: tier extended with the other depths)'},
     outside='offsets that are not multiples of 1/16 (quick) / 1/256 (thorough) (arbitrary doubles make the 32 weight products of the code a 45 M clause instance); the computation of the cell and '
             'offsets from the position (hash_with_dxdy, decided by C03)',
     assumptions=['cut at Layer::hash_with_dxdy: it returns the cell number and offsets chosen by the harness (every cell in range, offsets in [0, 1] on the 1/256 lattice)',
@@ -839,20 +839,20 @@ X = ('extended',)
 _KEEP_T = {
     'C01': r'^c01_e2e_d(4|8|16|17|29)$|^c01_r_npc_',
     'C02': r'.',
-    'C03': r'^c03_(centre|vertices)_d(3|8|17|29)$|^c03_offset_d(0|1)$|^c03_path_d(2|29)$|^c03_border_\w+_d(0|1)$|^c03_inv_(npc_b0|eqr_b5|spc_b10)_d0$|^c03_range_\w+_d(0|1|2|8|16|28)$',
+    'C03': r'^c03_(centre|vertices)_d(3|8|17|29)$|^c03_offset_d(0|1)$|^c03_path_d(0|2|29)$|^c03_border_\w+_d(0|1)$|^c03_inv_(npc_b0|eqr_b5|spc_b10)_d0$|^c03_range_\w+_d(0|1|2|8|16|28|29)$',
     'C04': r'^c04_pair_d(4|8)$',
     'C06': r'.',
     'C07': r'^(?!c07_(or|xor)_(1_2|2_1)_dm11)',
     'C08': r'^(?!c08_(or_2_1|xor_1_2)_dm11)',
     'C09': r'^(?!c09_views_\w+_3_dm1$)(?!c09_views_array_)',
-    'C10': r'_d3$|^c10_\w+_eqr_d(5|8|16|17|28)$|^c10_ringends_[ns]_(d26_k67108800|d29_k536870848|d29_k402653184)$',
-    'C11': r'^c11_(center|order)_n(4|5|7|8|13|536870911|536870912)$|^c11_point_\w+_n(3|5)_q\d$|^c11_point_eqr_n2$',
+    'C10': r'_d(2|3)$|^c10_\w+_eqr_d(5|8|16|17|28)$|^c10_ringends_[ns]_(d26_k67108800|d29_k536870848|d29_k402653184)$',
+    'C11': r'^c11_(center|order)_n(2|3|4|5|7|8|13|536870911|536870912)$|^c11_point_\w+_n(3|5)_q\d$|^c11_point_\w+_n(1|2)$|^c11_seam_n2$',
     'C14': r'^c14_(internal|parts|dirs)_',
     'C15': r'^(?!c15_fixed_)|^c15_fixed_(d1_cap2_m2)$',
     'C16': r'.',
     'C17': r'.',
     'C18': r'.',
-    'C19': r'^c19_corner_d(3|8|17)$|^c19_any_d3$|_d(0|1)_fine$',
+    'C19': r'^c19_corner_d(2|3|8|17|29)$|^c19_any_d(2|3)$|_d(0|1)_fine$',
 }
 for _pid, _p in PROPS.items():
     _rx = _re.compile(_KEEP_T.get(_pid, '.'))
